@@ -829,9 +829,55 @@ def listing_tables(T):
     fmt_rows = ", ".join(f"({int(b, 8) if b else 0}, {T.lean_str(a or c)}.toList)" for b, a, c in pieces)
     opn = {"Add": 0, "Remove": 1, "Set": 2}
 
+    # ---- every producer of quoter output (wave 3b): a new one fails the check loudly until it is classified
+    import os
+    classes = {
+        "yash-builtin/src/alias/semantics.rs": "listing",            # alias
+        "yash-builtin/src/set.rs": "listing",                        # set (variables)
+        "yash-builtin/src/trap.rs": "listing",                       # trap, trap -p
+        "yash-builtin/src/typeset/print_variables.rs": "listing",    # typeset -p, export -p, readonly -p
+        "yash-builtin/src/typeset/print_functions.rs": "listing",    # typeset -fp (attribute lines modelled)
+        "yash-builtin/src/command/identify.rs": "listing-unmodelled",  # command -v: `alias [-- ]n=v`, quoted paths
+        "yash-builtin/src/common/syntax.rs": "message",              # error annotations (suggested spelling)
+        "yash-builtin/src/kill/syntax.rs": "message",
+        "yash-builtin/src/set/syntax.rs": "message",
+        "yash-builtin/src/getopts/report.rs": "message",
+        "yash-cli/src/startup/args.rs": "message",
+        "yash-semantics/src/assign.rs": "xtrace",
+        "yash-semantics/src/xtrace.rs": "xtrace",
+        "yash-semantics/src/redir.rs": "xtrace",
+        "yash-semantics/src/command/compound_command/case.rs": "xtrace",
+        "yash-semantics/src/command/compound_command/for_loop.rs": "xtrace",
+        "yash-semantics/src/tests.rs": "test",
+    }
+    found = []
+    for crate in ["yash-builtin", "yash-semantics", "yash-cli", "yash-prompt"]:
+        base = os.path.join(T.REPO, crate, "src")
+        for dirpath, _dirs, files in os.walk(base):
+            for f in sorted(files):
+                if f.endswith(".rs"):
+                    rel = os.path.relpath(os.path.join(dirpath, f), T.REPO)
+                    src = strip_comments(T.read(rel))
+                    # code before the unit tests of the file
+                    code = src.split("#[cfg(test)]")[0]
+                    if re.search(r"\byash_quote\b|\.quote\(\)", code if rel != "yash-semantics/src/tests.rs" else src):
+                        found.append(rel)
+    found.sort()
+    for rel in found:
+        if rel not in classes:
+            T.fail(f"new producer of quoter output: {rel} uses yash_quote / Value::quote and is not classified in "
+                   "tools/tables/quote.py (listing -> model it in Quote/Listing.lean; message / xtrace -> say so)")
+    for rel in classes:
+        if rel not in found:
+            T.fail(f"{rel} no longer uses yash_quote / Value::quote: remove it from the producer list of tools/tables/quote.py")
+    prod_rows = ", ".join(f"({T.lean_str(r)}, {T.lean_str(classes[r])})" for r in found)
+
     def chars(x):
         return lean_chars(T, list(x))
-    state = f"""/-- yash-env `system/virtual/signal.rs`: (name without SIG, number) of every signal of the virtual system -/
+    state = f"""/-- every file of yash-builtin / yash-semantics / yash-cli / yash-prompt (outside unit tests) that calls the
+    quoter, with its classification; the extractor fails on a file that is not classified -/
+def quoteProducers : List (String × String) := [{prod_rows}]
+/-- yash-env `system/virtual/signal.rs`: (name without SIG, number) of every signal of the virtual system -/
 def virtualSignals : List (String × Nat) := [{", ".join(f'({T.lean_str(n)}, {k})' for n, k in sigs)}]
 /-- yash-env `impl Default for Mode` = the umask a process of the virtual system starts with -/
 def initialUmask : Nat := {initial_umask}
